@@ -6,11 +6,15 @@
 package c02
 
 import (
+	"errors"
 	"fmt"
+	"github.com/tailscale/setec/audit"
+	"github.com/tailscale/setec/db"
 	"os"
 	"path/filepath"
 	"runtime"
 	"sync"
+	"sync/atomic"
 	"testing"
 
 	"verif/harness/internal/evid"
@@ -52,7 +56,8 @@ func TestC02(t *testing.T) {
 				rng := r.Rand(uint64(h))
 				os.MkdirAll(filepath.Join(dir, fmt.Sprintf("h%d", h)), 0o700)
 				path := filepath.Join(dir, fmt.Sprintf("h%d", h), "db")
-				d, err := realdb.Open(path, realdb.DummyKey("c02"))
+				snk := &flakySink{}
+				d, err := db.Open(path, realdb.DummyKey("c02"), audit.New(snk))
 				if err != nil {
 					r.Violation("open-fails", h, "creating a database failed: "+err.Error(), nil)
 					continue
@@ -70,7 +75,7 @@ func TestC02(t *testing.T) {
 					// now and then the server is restarted between two calls: the specification is about
 					// the service, not about one process
 					if rng.IntN(15) == 0 {
-						d2, err := realdb.Open(path, realdb.DummyKey("c02"))
+						d2, err := db.Open(path, realdb.DummyKey("c02"), audit.New(snk))
 						if err != nil {
 							r.Violation("reopen-fails", h, fmt.Sprintf("history %d: reopening the database failed: %v", h, err), map[string]any{"history": trace})
 							break
@@ -78,6 +83,44 @@ func TestC02(t *testing.T) {
 						d = d2
 						trace = append(trace, step{"(restart)", "", ""})
 						r.Count("restarts_inside_histories", 1)
+					}
+					// now and then the audit log cannot be made durable during a call (its Sync fails): the call
+					// fails, and like every failed call it must change nothing
+					if rng.IntN(14) == 0 {
+						snk.failSync.Store(true)
+						got := ops.ApplyReal(d, su, op)
+						snk.failSync.Store(false)
+						trace = append(trace, step{op.String() + " (audit log sync fails)", got.String(), ""})
+						r.Eval(1)
+						if got.Class == refmodel.Other {
+							r.Count("calls_failed_by_audit_error", 1)
+							real, err := realdb.Dump(d)
+							if err != nil || real.Canon() != m.Canon() {
+								r.Violation("failed-call-changed-state", h, fmt.Sprintf("history %d step %d (%s): the call failed (%s) but the state is now %v (err %v), it was %s", h, i, op, got.Err, real.Canon(), err, m.Canon()), map[string]any{"history": trace})
+								break
+							}
+							// ... and the version counter has not moved either
+							if op.Kind == ops.Put {
+								want := ops.ApplyModel(m, nil, true, op)
+								got2 := ops.ApplyReal(d, su, op)
+								trace = append(trace, step{op.String() + " (retried)", got2.String(), want.String()})
+								if !ops.Agree(want, got2) {
+									r.Violation("failed-call-changed-state", h, fmt.Sprintf("history %d step %d: %s failed with the audit log down, and retried it returns %s; the model (in which the failed call never happened) says %s", h, i, op, got2, want), map[string]any{"history": trace})
+									break
+								}
+								if want.Class == refmodel.OK {
+									issued[op.Name] = max(issued[op.Name], want.Version)
+								}
+							}
+							continue
+						}
+						// a call that needs no record (e.g. an unchanged conditional get, a miss) goes through as usual
+						want := ops.ApplyModel(m, nil, true, op)
+						if !ops.Agree(want, got) {
+							r.Violation("result-differs", h, fmt.Sprintf("history %d step %d (%s, audit log sync failing): real %s, model %s", h, i, op, got, want), map[string]any{"history": trace})
+							break
+						}
+						continue
 					}
 					// and now and then a call fails because the file system does: like every failed call it must change nothing
 					if op.Kind.Mutating() && rng.IntN(12) == 0 {
@@ -213,7 +256,18 @@ func TestC02(t *testing.T) {
 		}(w)
 	}
 	wg.Wait()
-	r.Require("histories", "restarts_inside_histories", "calls_failed_by_io_error", "failed_calls", "shape_delete_newest_version", "shape_put_after_newest_deleted", "shape_put_empty_after_newest_deleted",
+	r.Require("histories", "restarts_inside_histories", "calls_failed_by_io_error", "calls_failed_by_audit_error", "failed_calls", "shape_delete_newest_version", "shape_put_after_newest_deleted", "shape_put_empty_after_newest_deleted",
 		"shape_put_duplicate_of_newest", "shape_put_duplicate_of_older", "shape_activate_backwards", "shape_recreate_after_delete")
 	r.Rule("seeded random histories of 30-60 operations (all 9 operations, weighted towards put/activate/delete-version) over 3 ordinary names plus the empty and a reserved name, values from a 4-element pool incl. the empty value; oracle after every step. A case is distinct by (operation, precondition class of its name/version argument, model outcome class); named shapes are counted in 'observed'")
+}
+
+// flakySink is an audit sink whose Sync can be made to fail (the record reached the page cache, not the disk).
+type flakySink struct{ failSync atomic.Bool }
+
+func (s *flakySink) Write(p []byte) (int, error) { return len(p), nil }
+func (s *flakySink) Sync() error {
+	if s.failSync.Load() {
+		return errors.New("injected: audit log fsync failed")
+	}
+	return nil
 }
